@@ -250,7 +250,8 @@ func (r *Report) Finish() int {
 		"samples":                       r.Samples,
 		"exhaustive":                    r.Exhaustive,
 		"bounds":                        r.Bounds,
-		"outcomes":                      r.Outcomes,
+		"outcomes":                      capOutcomes(r.Outcomes),
+		"distinct_outcomes":             len(r.Outcomes),
 		"known_findings_seen":           knownList,
 		"violation_replays":             replayPaths,
 	}
@@ -306,4 +307,31 @@ func firstLines(s string, n int) string {
 		l = append(l[:n], "...")
 	}
 	return strings.Join(l, "\n  ")
+}
+
+func capOutcomes(m map[string]int) map[string]int {
+	if len(m) <= 60 {
+		return m
+	}
+	keys := make([]string, 0, len(m))
+	for k := range m {
+		keys = append(keys, k)
+	}
+	sort.Slice(keys, func(i, j int) bool {
+		if m[keys[i]] != m[keys[j]] {
+			return m[keys[i]] > m[keys[j]]
+		}
+		return keys[i] < keys[j]
+	})
+	out := map[string]int{}
+	rest := 0
+	for i, k := range keys {
+		if i < 60 {
+			out[k] = m[k]
+		} else {
+			rest += m[k]
+		}
+	}
+	out["(other outcomes)"] = rest
+	return out
 }
